@@ -92,12 +92,14 @@ PROPS = {
     },
     "C06": {
         "gen": ["Numeric"],
-        "thm_module": "NutsModel.Thm.Sched",
+        "thm_module": "NutsModel.Thm.FlowSched",
         "namespace": "NutsModel.Sched",
         "theorems": [
             "step_after_warmup", "step_final_window", "step_mass_phase", "transformation_frozen",
             "stepsize_frozen_after_warmup", "last_uses_average", "tuning_step", "tuning_flag_exact",
             "any_num_tune_constructs", "nextWindow_grows",
+            "Flow.tuning_flag_exact", "Flow.tuning_flag_exact_from_start", "Flow.transformation_frozen", "Flow.update_iff",
+            "Flow.post_warmup_actions", "Flow.last_warmup_uses_average", "Flow.estimator_choice",
         ],
         "harness": "C06",
         "level": "proof",
@@ -108,9 +110,12 @@ PROPS = {
                  "dual-averaging / Adam state and the tuning flags are compared with Model/Schedule.lean (exact integers, bit-exact "
                  "floats). Direct oracle on the implementation: exactly num_tune tuning draws (Progress and statistic), no "
                  "transformation id change at or after the final window, post-warmup step_size_bar constant and step size inside "
-                 "the jitter band. distinct_nontrivial = chains with >= 2 window switches."),
+                 "the jitter band. FLOW strategy (FlowNuts / FlowMclmc, num_tune 0..11 and random up to 400, random step_size_window "
+                 "and transform_update_freq): per draw the tuning flags and the transformation index of the returned point are compared "
+                 "with Model/FlowSchedule.lean (which draws re-fit the transformation); same direct oracle. "
+                 "distinct_nontrivial = chains with >= 2 window switches + flow chains with at least one re-fit."),
         "trusted": [
-            "C06: Model/Schedule.lean is hand-written (single-assignment transcription of GlobalStrategy::adapt) and tied by per-draw correspondence through cfg(nuts_rs_verif) read accessors; flow strategy (ExternalTransformAdaptation) is not covered by this check",
+            "C06: Model/Schedule.lean (GlobalStrategy::adapt, single-assignment transcription) and Model/FlowSchedule.lean (ExternalTransformAdaptation::adapt) are hand-written and tied by per-draw correspondence: hook counters for the former, tuning flags and transformation index (public statistics) for the latter",
             "C06: that Progress is built after adapt in both chains is checked on real runs (tuning-count oracle), not a theorem",
         ],
     },
